@@ -72,12 +72,13 @@ def xy_classification(sym, n, lk):
     inter = [dict(i) for i in inter]
     check_classification(sym, inter, X, Yv, f"(X,Y) {lk}", levels)
 
-@obligation('C14','xy_regression', bounds="<=3 examples, symbolic real targets k/4, symbolic probe action: reward == -|a-y|; no action list; type explicit 'r' or inferred from numeric labels",
+@obligation('C14','xy_regression', bounds="<=3 examples, symbolic real targets k/4 or plain int targets, symbolic probe action; type 'r'/'R' or inferred: reward == -|a-y|; no action list; type explicit 'r' or inferred from numeric labels",
             functions=FUNCS, params=lambda tier: [dict(n=n) for n in ((1,2,3) if tier == 'quick' else (1,2,3,4))])
 def xy_regression(sym, n):
     X = [[sym.int(f'x{i}',-2,2)] for i in range(n)]
-    Y = [sym.real(f'y{i}',-2,2,denom=4) for i in range(n)]
-    args = (X,Y) if sym.flag('infer') else (X,Y,'r')
+    ints = sym.flag('int_targets')        # integer-valued targets (plain Python ints) are numeric labels too
+    Y = [(sym.choice(f'yi{i}', [-1,0,2,3]) if ints else sym.real(f'y{i}',-2,2,denom=4)) for i in range(n)]
+    args = (X,Y) if sym.flag('infer') else (X,Y, sym.choice('tipe', ['r','R']))
     inter = list(SupervisedSimulation(*args).read())
     sym.check(len(inter) == n, "regression: interaction count")
     a = sym.real('probe',-3,3,denom=4)
@@ -117,7 +118,7 @@ def source_params(tier):
 def sources(sym, fmt):
     take = sym.choice('take', [None,2,5])
     labels = [sym.choice(f'l{i}', ['A','B']) for i in range(3)]
-    feats  = [(sym.choice(f'f{i}', [1,2]), 7+i) for i in range(3)]
+    feats  = [(sym.choice(f'f{i}', [1,2] if fmt not in ('libsvm','manik') else [0,1,2]), 7+i) for i in range(3)]       # LibSVM/Manik: a feature may be written explicitly as 0
     kw = {}
     if fmt in ('csv','csv_header'):
         pos = sym.choice('pos', ['first','last'])
@@ -178,8 +179,8 @@ def sources(sym, fmt):
             sym.check(it['rewards'](a) == (1 if str(a) == y else 0), f"{fmt}: reward of {a!r} for label {y!r}")
 
 # ---------------------------------------------------------------------------------------------------
-@obligation('C14','labelled_rows', bounds="3 examples: (a) class labels that are tuples (one-hot vectors), type 'c' given or inferred; (b) sparse rows whose numeric label 0 is not stored (dict rows with LabelRows, and sparse ARFF), as classification and as regression; (c) rows already labelled by LabelRows(col,'c') with numeric class labels or LabelRows(col,'m') with label lists, handed over WITHOUT label_col/label_type",
-            functions=FUNCS, params=lambda tier: [dict(v=v) for v in ('tuple_labels','sparse_zero_rows','sparse_zero_arff','prelabelled_c','prelabelled_m')])
+@obligation('C14','labelled_rows', bounds="3 examples: (a) class labels that are tuples (one-hot vectors), type 'c' given or inferred; (b) sparse rows whose numeric label 0 is not stored (dict rows with LabelRows, and sparse ARFF), as classification and as regression; (c) rows already labelled by LabelRows(col,'c') with numeric class labels or LabelRows(col,'m') with label lists, handed over WITHOUT label_col/label_type; (d) label_col with the type given in upper or lower case",
+            functions=FUNCS, params=lambda tier: [dict(v=v) for v in ('tuple_labels','sparse_zero_rows','sparse_zero_arff','prelabelled_c','prelabelled_m','upper_case_type')])
 def labelled_rows(sym, v):
     from coba.pipes import Pipes
     from coba.pipes.rows import LabelRows
@@ -231,6 +232,28 @@ def labelled_rows(sym, v):
         for it,l in zip(inter,labs):
             sym.check(sorted(it['actions']) == sorted(set(labs)) and len(it['actions']) == len(set(labs)), f"rows labelled as classification ('c') with numeric labels {labs}: action set is {it['actions']}")
             for a in sorted(set(labs)): sym.check(it['rewards'](a) == (1 if a == l else 0), f"rows labelled as classification: reward of {a} for label {l}")
+        return
+    if v == 'upper_case_type':
+        tipe = sym.choice('tipe', ['R','M','C','r','m','c'])
+        dense = sym.flag('dense')
+        if tipe.lower() == 'm': labs = [sym.choice(f'y{i}', LABELSETS) for i in range(2)]
+        else: labs = [sym.choice(f'y{i}', [1,2,3]) for i in range(2)]
+        rows = [[i, l, 7] for i,l in enumerate(labs)] if dense else [{'p': i+1, 'y': l} for i,l in enumerate(labs)]
+        inter = [dict(i) for i in SupervisedSimulation(ListSource(rows), 1 if dense else 'y', tipe).read()]
+        sym.check(len(inter) == 2, f"label_type {tipe!r}: interaction count")
+        for it,l in zip(inter,labs):
+            if tipe.lower() == 'r':
+                sym.check(list(it['actions']) == [], f"label_type {tipe!r}: a regression problem lists actions {it['actions']}")
+                for a in (0, 1, 2.5): sym.check(it['rewards'](a) == -abs(a-l), f"label_type {tipe!r}: reward of {a} for target {l} is {it['rewards'](a)}")
+            elif tipe.lower() == 'c':
+                sym.check(sorted(it['actions']) == sorted(set(labs)), f"label_type {tipe!r}: action set {it['actions']}")
+                for a in sorted(set(labs)): sym.check(it['rewards'](a) == (1 if a == l else 0), f"label_type {tipe!r}: reward of {a} for label {l}")
+            else:
+                union = sorted(set(itertools.chain(*labs)))
+                sym.check(sorted(it['actions']) == union, f"label_type {tipe!r}: action set {it['actions']} is not {union}")
+                for p in PROBES[:10]:
+                    e = fractions.Fraction(len(set(p)&set(l)), len(set(p)|set(l)))
+                    sym.check(abs(it['rewards'](list(p))-float(e)) < 1e-12, f"label_type {tipe!r}: reward of {p} for labels {l} is not the Jaccard overlap")
         return
     if v == 'prelabelled_m':
         Y = [sym.choice(f'y{i}', LABELSETS) for i in range(2)]
